@@ -31,10 +31,11 @@ FILES = {
     "g.js": b"foo(9)\n",                      # faulted in some runs (unreadable)
     # the same three kinds of skipped file at other positions of the (sorted) work queue: FIRST
     # and BETWEEN the files with findings — a skip must not affect the files taken after it
+    "0.html": b"<script>foo(10)</script>\n",
     "0e.js": b"", "0f.js": b"foo(8) \xff\xfe\n", "0g.js": b"foo(9)\n",
     "a5e.js": b"", "a5f.js": b"foo(8) \xff\xfe\n", "a5g.js": b"foo(9)\n",
 }
-POSITIONED_SKIPS = ["0e.js", "0f.js", "0g.js", "a5e.js", "a5f.js", "a5g.js"]
+POSITIONED_SKIPS = ["0e.js", "0f.js", "0g.js", "a5e.js", "a5f.js", "a5g.js", "0.html"]
 
 
 def rules_text():
@@ -96,11 +97,14 @@ _REF_CACHE = {}
 _REF_LOCK = __import__("threading").Lock()
 
 
-def reference(binary, root, files, faults, style, tag="x"):
+RUN_ARGV = {"run-infer": ["run", "-p", "foo($A)"], "run-lang": ["run", "-p", "foo($A)", "-l", "js"]}
+
+
+def reference(binary, root, files, faults, style, tag="x", run_mode=None):
     """union of the single-file, single-thread runs (un-hooked scheduling: VERIF_THREADS unset).
     Single-file results are cached by (name, content, faulted?, style) and computed in parallel."""
     def one(name):
-        key = (name, files[name], name in faults, style)
+        key = (name, files[name], name in faults, style, run_mode)
         with _REF_LOCK:
             if key in _REF_CACHE:
                 return _REF_CACHE[key]
@@ -108,7 +112,8 @@ def reference(binary, root, files, faults, style, tag="x"):
         os.makedirs(d, exist_ok=True)
         vlib.write_tree(d, {name: files[name], "r.yml": rules_text()})
         env = {"VERIF_FAULTS": ",".join(faults)}
-        code, out, err = vlib.run_cli(binary, ["scan", "-r", "r.yml", f"--json={style}", "-j", "1", name], d, extra_env=env)
+        argv1 = (RUN_ARGV[run_mode] + [f"--json={style}", "-j", "1", name]) if run_mode else ["scan", "-r", "r.yml", f"--json={style}", "-j", "1", name]
+        code, out, err = vlib.run_cli(binary, argv1, d, extra_env=env)
         if vlib.is_crash(code, err):
             res = ("crash", f"reference run crashed on {name}: {err[-300:]!r}")
         else:
@@ -122,7 +127,7 @@ def reference(binary, root, files, faults, style, tag="x"):
         if kind == "crash":
             return None, val
         recs.extend(val)
-    any_error = any(r.get("severity") == "error" for r in recs)
+    any_error = (not run_mode) and any(r.get("severity") == "error" for r in recs)  # `run --json` always exits 0
     return (sorted(rec_key(r) for r in recs), 1 if any_error else 0), None
 
 
@@ -131,19 +136,21 @@ def explore_config(ex, files, faults, T, style, bound, update_all=False, idx=0, 
     independent process; a task = one choice prefix). Returns (#schedules, #distinct outcomes)."""
     import concurrent.futures, threading
     rep = ex.rep
-    tag = f"cfg{idx}_{T}_{style}_{'U' if update_all else 'scan'}"
+    run_mode = update_all if isinstance(update_all, str) else None   # "run-infer" / "run-lang": `run -p` instead of `scan`
+    update_all = update_all is True
+    tag = f"cfg{idx}_{T}_{style}_{'U' if update_all else (run_mode or 'scan')}"
     proj = os.path.join(ex.root, "proj_" + tag)
     os.makedirs(proj, exist_ok=True)
     tree = dict(files)
     tree["r.yml"] = rules_text().encode()
     vlib.write_tree(proj, tree)
-    case_base = {"files": ({k: v.decode("latin-1") for k, v in files.items()} if len(files) < 20 else {"<burst>": f"{len(files)} files m%04d.js = foo(i)"}), "faults": sorted(faults), "threads": T, "style": style, "update_all": update_all}
+    case_base = {"files": ({k: v.decode("latin-1") for k, v in files.items()} if len(files) < 20 else {"<burst>": f"{len(files)} files m%04d.js = foo(i)"}), "faults": sorted(faults), "threads": T, "style": style, "update_all": update_all, "run_mode": run_mode}
     if update_all:
         argv = ["scan", "-r", "r.yml", "-U", "."]
         want = None
     else:
-        argv = ["scan", "-r", "r.yml", f"--json={style}", "."]
-        want, problem = reference(ex.binary, ex.root, files, faults, style, tag)
+        argv = (RUN_ARGV[run_mode] + [f"--json={style}", "."]) if run_mode else ["scan", "-r", "r.yml", f"--json={style}", "."]
+        want, problem = reference(ex.binary, ex.root, files, faults, style, tag, run_mode)
         if problem:
             vlib.machinery(problem)
     lock = threading.Lock()
@@ -202,7 +209,7 @@ def explore_config(ex, files, faults, T, style, bound, update_all=False, idx=0, 
                 # the printed error summary is a function of the findings
                 m2 = re.search(rb"(\d+) error\(s\) found", err)
                 n_err = sum(1 for r in recs if r.get("severity") == "error")
-                if (int(m2.group(1)) if m2 else 0) != n_err:
+                if not run_mode and (int(m2.group(1)) if m2 else 0) != n_err:
                     rep.violation("error-summary-differs-from-error-findings", dict(case, summary=(m2.group(0).decode() if m2 else None), error_findings=n_err))
                 if (1 if code != 0 else 0) != want[1]:
                     rep.violation("exit-status-depends-on-schedule-or-differs-from-per-file-runs", dict(case, code=code, want=want[1]))
@@ -275,7 +282,8 @@ def main(argv):
         os.makedirs(proj)
         tree = dict(files); tree["r.yml"] = rules_text().encode()
         vlib.write_tree(proj, tree)
-        argvv = ["scan", "-r", "r.yml", "-U", "."] if case["update_all"] else ["scan", "-r", "r.yml", f"--json={case['style']}", "."]
+        rm = case.get("run_mode")
+        argvv = ["scan", "-r", "r.yml", "-U", "."] if case["update_all"] else (RUN_ARGV[rm] + [f"--json={case['style']}", "."]) if rm else ["scan", "-r", "r.yml", f"--json={case['style']}", "."]
         outs = []
         for _ in range(2):
             if case["update_all"]:
@@ -286,7 +294,7 @@ def main(argv):
         print("exit code", outs[0][0], "status", outs[0][2])
         print(outs[0][1].decode(errors="replace")[:2000])
         if not case["update_all"]:
-            want, _ = reference(binary, root, files, case["faults"], case["style"], "replay")
+            want, _ = reference(binary, root, files, case["faults"], case["style"], "replay", case.get("run_mode"))
             got = sorted(rec_key(r) for r in parse_json(case["style"], outs[0][1]))
             print("records equal to per-file union:", got == want[0])
             return 0 if got == want[0] and (1 if outs[0][0] != 0 else 0) == want[1] else 1
@@ -329,6 +337,11 @@ def main(argv):
         flt = [nm] if nm.endswith("g.js") else []
         configs.append((["a.js", "b.js", nm], flt, 1, "stream", 0, False))
         configs.append((["a.js", "b.js", nm], flt, 2, "stream", 2 if thorough else 1, False))
+    # `run -p` (no rule file): language inferred per file (html hosts js) and given with -l
+    for mode in ("run-infer", "run-lang"):
+        configs.append((base_files, [], 1, "stream", 0, mode))
+        configs.append((base_files, [], 2, "stream", 2 if thorough else 1, mode))
+        configs.append((["0.html"] + base_files, [], 2, "stream", 1, mode))
     # burst configurations: many one-match files, so that in the schedules where the producers run
     # ahead of the printer (the default schedule keeps the running participant running) thousands of
     # items are in flight before the first recv — queue-capacity / back-pressure bugs need that
